@@ -54,6 +54,7 @@ type RunSpec struct {
 	Variant   string `json:"variant,omitempty"`
 	Tier      string `json:"tier,omitempty"`
 	Stalls    bool   `json:"stalls,omitempty"`
+	Feat      int    `json:"feat,omitempty"`
 }
 
 type Violation struct {
